@@ -65,12 +65,12 @@ def literal_strategy():
     sign = st.sampled_from(["", "-"])
     integer = st.one_of(
         st.tuples(sign, st.integers(0, 10**6)).map(lambda t: t[0] + str(t[1])),
-        st.tuples(sign, st.sampled_from(["0x", "0X"]), st.integers(0, 10**6), st.booleans(), st.integers(0, 3)).map(lambda t: t[0] + t[1] + "0" * t[4] + (format(t[2], "X") if t[3] else format(t[2], "x"))),
+        st.tuples(sign, st.sampled_from(["0x", "0X"]), st.integers(0, 10**6), st.booleans(), st.sampled_from([0, 1, 2, 3, 0, 1, 2, 3, 40, 5000])).map(lambda t: t[0] + t[1] + "0" * t[4] + (format(t[2], "X") if t[3] else format(t[2], "x"))),
         st.tuples(sign, st.sampled_from(["0o", "0O"]), st.integers(0, 10**6), st.integers(0, 3)).map(lambda t: t[0] + t[1] + "0" * t[3] + format(t[2], "o")),
         st.tuples(sign, st.sampled_from(["0b", "0B"]), st.integers(0, 10**6), st.integers(0, 3)).map(lambda t: t[0] + t[1] + "0" * t[3] + format(t[2], "b")),
         st.tuples(sign, st.integers(1, 5)).map(lambda t: t[0] + "0" * t[1]),
     ).map(lambda s: {"lit": "int", "text": s})
-    decimal = st.tuples(sign, st.sampled_from(["", "0", "00", "1", "01", "0012", "63", "10", "100", "9007199254740993", "123456789012345678901234567890"]),
+    decimal = st.tuples(sign, st.sampled_from(["", "0", "00", "1", "01", "0012", "63", "10", "100", "9007199254740993", "123456789012345678901234567890", "0" * 700 + "3", "0" * 5000 + "12", "0" * 5000]),
                         st.sampled_from(["0", "5", "50", "05", "00", "125", "9960", "000", "9" * 17, "0000001", "0" * 10, "98765432109876543210"])).map(
         lambda t: {"lit": "dec", "text": f"{t[0]}{t[1]}.{t[2]}"})
     # single line: body characters, with documented escapes and other backslash sequences
@@ -501,7 +501,7 @@ def eval_posmark_literal(lit, text, ctx, pad, stt):
             elif not exc[1].startswith(("SsbCompilerError:", "ParseError:")):
                 fails.append(Failure(f"posmark_literal_crash:{ctx}:{exc[0]}", f"{exc[1]}\n{src}"))
             return fails
-        w = int(whole) if whole else 0
+        w = int(whole.lstrip("0") or "0")  # (digits beyond the interpreter's int-from-text limit are all zeros here)
         want = (-w if neg else w, fr == "5")
     stt.mark_nontrivial([text, ctx])
     if exc is not None:
